@@ -265,9 +265,8 @@ M('F24R', 'src/xdoctest/static_analysis.py', """    # Only iterate through non-b
     try:
         for t in tokenize.generate_tokens(_readline):
             if t[0] == tokenize.COMMENT:""", ['C04'], 'F24 repair reverted: comments after a whitespace-only line are not seen')
-M('F25R', 'src/xdoctest/static_analysis.py', """    lines = list(lines)
-    iterable = (line for line in lines if line.strip())""", """    lines = list(lines)
-    iterable = (line for line in lines if line)""", ['C04', 'C01', 'C13'], 'F25 repair reverted: a whitespace-only continuation line breaks statement splitting')
+# (F25R withdrawn: since the F26 repair - balanced groups found from the top down - the guard F25 added to
+# is_balanced_statement makes no observable difference any more; F26R covers the pair)
 M('F26R', 'src/xdoctest/parser.py', """                a = 0
                 b = 1
                 while a < len(lines):
